@@ -366,7 +366,8 @@ func c13RPC(rep *vrep.Report, t *testing.T, n int) {
 	gc := svc.getAccountGroup()
 	metaOrder, msgOrder := logHashes(gc.MetadataStore()), logHashes(gc.MessageStore())
 	unknown := cidOfBytes([]byte("unknown-entry")).Bytes()
-	run := func(store string, order []cid.Cid, call func(since, until []byte, untilNow, reverse bool, expect int) ([]string, error)) {
+	run := func(store string, order []cid.Cid, call func(since, until []byte, untilNow, reverse bool, expect int, patience time.Duration) ([]string, error)) {
+		retries := 0
 		idOf := func(i int) []byte {
 			switch i {
 			case -1:
@@ -392,8 +393,13 @@ func c13RPC(rep *vrep.Report, t *testing.T, n int) {
 					if expect < 0 || s == -2 || u == -2 {
 						expect = 0
 					}
-					got, err := call(idOf(s), idOf(u), untilNow, rev, expect)
 					wantErr := s == -2 || u == -2 || (s >= 0 && u >= 0 && lo > hi)
+					got, err := call(idOf(s), idOf(u), untilNow, rev, expect, 5*time.Second)
+					if !wantErr && (err != nil || len(got) != expect) && retries < 4 {
+						retries++
+						// a slow machine must not look like a short listing: ask again with a long deadline
+						got, err = call(idOf(s), idOf(u), untilNow, rev, expect, 45*time.Second)
+					}
 					c := c13Case{Store: store + "-rpc", N: nn, Arrival: "service", Since: s, Until: u, Reverse: rev}
 					rep.Eval(fmt.Sprintf("rpc/%s/since=%s/until=%s/reverse=%v/err=%v", store, kindOf(s), kindOf(u), rev, err != nil))
 					rep.AddTransitions(1)
@@ -423,8 +429,8 @@ func c13RPC(rep *vrep.Report, t *testing.T, n int) {
 			}
 		}
 	}
-	run("metadata", metaOrder, func(since, until []byte, untilNow, reverse bool, expect int) ([]string, error) {
-		cctx, cancel := context.WithTimeout(ctx, 5*time.Second)
+	run("metadata", metaOrder, func(since, until []byte, untilNow, reverse bool, expect int, patience time.Duration) ([]string, error) {
+		cctx, cancel := context.WithTimeout(ctx, patience)
 		defer cancel()
 		st := &recStream[protocoltypes.GroupMetadataEvent]{ctx: cctx}
 		// with an until identifier the handler keeps the stream open after the last event (only the caller's
@@ -451,8 +457,8 @@ func c13RPC(rep *vrep.Report, t *testing.T, n int) {
 		}
 		return out, err
 	})
-	run("message", msgOrder, func(since, until []byte, untilNow, reverse bool, expect int) ([]string, error) {
-		cctx, cancel := context.WithTimeout(ctx, 5*time.Second)
+	run("message", msgOrder, func(since, until []byte, untilNow, reverse bool, expect int, patience time.Duration) ([]string, error) {
+		cctx, cancel := context.WithTimeout(ctx, patience)
 		defer cancel()
 		st := &recStream[protocoltypes.GroupMessageEvent]{ctx: cctx}
 		// with an until identifier the handler keeps the stream open after the last event (only the caller's
